@@ -89,9 +89,9 @@ pub fn run(prop: &'static str, args: &Args) -> i32 {
                 return 2;
             }
         };
-        let r = check_case(prop, &case);
         ev.evaluations = 1;
-        return finish(args, ev, r.violations, &|c| check_case(prop, c).violations);
+        let v = recheck(prop, &case);
+        return finish(args, ev, v, &|c| recheck(prop, c));
     }
     let fams: &[&str] = if prop == "C03" { &["fixtures", "struct", "funcs", "locals", "names", "ctrl", "idshift", "leb", "reach", "minimal"] } else { &["fixtures", "struct", "funcs", "locals", "names", "customs", "reach", "leb", "idshift", "minimal"] };
     let ms = crate::props::families::members(fams, args, &mut ev);
@@ -109,6 +109,22 @@ pub fn run(prop: &'static str, args: &Args) -> i32 {
         "wasmparser 0.259 decoder and the iso normaliser (wmodel) are the trusted base".into(),
         "validity is judged by stand-alone wasmparser 0.214 with the documented default feature set".into(),
     ];
-    let viol = run_sweep(args, &mut ev, &cases, &|c| check_case(prop, c));
-    finish(args, ev, viol, &|c| check_case(prop, c).violations)
+    let mut viol = run_sweep(args, &mut ev, &cases, &|c| check_case(prop, c));
+    if prop == "C04" {
+        // "nothing is added, dropped, duplicated or retargeted unless asked to": additions made
+        // through the edit API must leave everything that was there before as it was
+        viol.extend(crate::props::edits::run_model_as("C04", args, &mut ev));
+        ev.rule.push_str(
+            ". Plus explicit-state exploration of the edit model (props/edits.rs): in every state reached by additions only, the unedited output must embed in the edited output \
+             (iso mode=embed: every old entity, export, segment and the start keep their structure and their targets) and exactly as many entities are new as the history added",
+        );
+    }
+    finish(args, ev, viol, &|c| recheck(prop, c))
+}
+
+fn recheck(prop: &'static str, c: &Case) -> Vec<Violation> {
+    if c.cfg.get("edits").is_some() {
+        return crate::props::edits::recheck_as("C04", c);
+    }
+    check_case(prop, c).violations
 }
